@@ -9,7 +9,7 @@ import os
 from .core import AnalysisError, VERIF
 from .terms import Unsupported
 from .guards import Ctx, And, atoms_of, ev, show_f, show_key
-from .summ import Sym, ListV, vkey, show_value
+from .summ import Sym, ListV, DictV, vkey, show_value
 from .effects import EditHooks, GuardedSummarizer
 
 EFFECT_CALLS = {"update", "add_node", "add_edge", "add_subgraph", "set", "write", "extend", "insert", "remove", "pop", "clear", "setdefault"}
@@ -37,6 +37,12 @@ class RefHooks(EditHooks):
             return r
         if self.mod and fname.isidentifier() and fname not in self.vocabulary and (self.mod, fname) in self.model.funcs:
             return self.model.funcs[(self.mod, fname)], False
+        # a method the inventory does not know (a helper the canonical form could not write out): read as part of its caller
+        if fname.startswith("self.") and fname[5:].isidentifier() and fname[5:] in getattr(self.model, "new_names", ()):
+            for cname, (cmod, cnode) in self.model.classes.items():
+                for m in cnode.body:
+                    if isinstance(m, ast.FunctionDef) and m.name == fname[5:] and not m.decorator_list:
+                        return m, True
         return None
 
     def call(self, sm, node, fname, args, kwargs, st):
@@ -92,6 +98,11 @@ def effects_of(leaf):
             out.append(("del", vkey(e[1])))
         elif e[0] == "effect":
             out.append(("effect", e[2], e[3]))
+        elif e[0] == "call" and "." in e[1] and e[1].split(".")[-1] == "update" and len(e[2]) == 1 and not e[3] and isinstance(e[2][0], DictV) \
+                and e[2][0].items and all(isinstance(k, str) for k, _ in e[2][0].items) and len(e) > 5 and e[5] is not None:
+            # X.update({"a": p, "b": q}) is X["a"] = p; X["b"] = q
+            for k, v in e[2][0].items:
+                out.append(("store", e[5], "sub", k, vkey(v)))
         elif e[0] == "call" and "." in e[1] and e[1].split(".")[-1] in EFFECT_CALLS:
             out.append(("call", e[1].split(".")[-1], e[5] if len(e) > 5 else None, e[2], e[3]))
         elif e[0] == "loop":
@@ -174,8 +185,14 @@ def compare(model, roles_, code_fn, ref_fn, rep, rule, construct, where, what, f
     cs = [(lf, split(lf), signature(lf)) for lf in cl]
     rs = [(lf, split(lf), signature(lf)) for lf in rl]
 
+    new_names = getattr(model, "new_names", set())
+
     def unread(x):
         if isinstance(x, Sym):
+            if new_names and isinstance(x.key, tuple) and len(x.key) >= 2 and x.key[0] == "call" and isinstance(x.key[1], str) and x.key[1].split(".")[-1] in new_names:
+                return "call to %s, which the inventory does not know and which could not be written out," % x.key[1]
+            if new_names and isinstance(x.key, tuple) and len(x.key) >= 3 and x.key[0] == "mcall" and isinstance(x.key[2], str) and x.key[2] in new_names:
+                return "call to %s, which the inventory does not know and which could not be written out," % x.key[2]
             if isinstance(x.key, tuple) and x.key and x.key[0] in ("comp", "lambda"):
                 return x.key[0]
             if isinstance(x.key, tuple) and len(x.key) >= 2 and x.key[0] == "call" and isinstance(x.key[1], str) and \
